@@ -10,6 +10,7 @@ EXPLAINED = {
     "node-sample-file-name": "F18",
     "computed-length-above-parse-limit": "F20",
     "sample-file-name-ends-with-white-space": "F21",
+    "control-points-within-epsilon": "F22",
 }
 
 
